@@ -284,10 +284,13 @@ Definition step_nobody_hr (c : bctx) (ty hdr : Z) : hr :=
         else Ok' c3 es
       else Ok' (with_opentype (with_inOpen c3 true) []) es
     else if ty =? tok_CLOSE then
-      if 0 <? discard c2 then Ok' (with_stack c2 (discard c2 - 1) (stack c2)) es
+      if inOpen c2 && (discard c2 =? 0) then Fatal' (es ++ fatal 0)              (* CLOSE token in the index phase of an OPEN sequence *)
+      else if 0 <? discard c2 then Ok' (with_stack c2 (discard c2 - 1) (stack c2)) es
       else cont (handle_close c2 hdr)
     else if ty =? tok_ABORT then
-      if rejected then Ok' c2 es else cont (handle_violation c2 false false)
+      if rejected then Ok' c2 es
+      else cont (match handle_violation c2 (inOpen c2) false with      (* an ABORT in the index phase abandons that OPEN sequence *)
+                 | Ok' c' es' => Ok' (with_inOpen c' false) es' | Fatal' es' => Fatal' es' end)
     else if ty =? tok_INT then (if rejected then Ok' c2 es else cont (deliver c2 (VInt hdr)))
     else if ty =? tok_NEG then (if rejected then Ok' c2 es else cont (deliver c2 (VInt (- hdr))))
     else if ty =? tok_VOCAB then
